@@ -139,7 +139,7 @@ class EvalNode(ConfigScalar(str)):
         lines = self.strip().split('\n')
         # statements in front of the final expression can share its line ('x = 1; x + 1'): split it at the last ';' that python
         # itself reads as a separator (not inside a string literal); the other lines are python's business
-        lines[-1:] = EvalNode._split_last_statement(lines[-1])
+        lines[-1:] = EvalNode._split_last_statement(lines)
 
         exec_lines = "\n".join(lines[:-1])
         eval_line = lines[-1].strip()
@@ -181,16 +181,19 @@ class EvalNode(ConfigScalar(str)):
 
 
     @staticmethod
-    def _split_last_statement(line):
+    def _split_last_statement(lines):
+        ''' The last line of the code, split at the last ``;`` on it which python itself reads as a separator. '''
         import io
         import tokenize
+        line = lines[-1]
         pos = None
         try:
-            for tok in tokenize.generate_tokens(io.StringIO(line).readline):
-                if tok.type == tokenize.OP and tok.string == ';':
+            # (the whole code, not the last line on its own: it can be the end of a literal that begins on an earlier line)
+            for tok in tokenize.generate_tokens(io.StringIO('\n'.join(lines)).readline):
+                if tok.type == tokenize.OP and tok.string == ';' and tok.start[0] == len(lines):
                     pos = tok.start[1]
         except (tokenize.TokenError, SyntaxError, IndentationError):
-            pass # (e.g. the end of a multi-line literal: whatever has been seen up to here still holds)
+            pass # (whatever has been seen up to here still holds)
         if pos is None:
             return [line]
         return [line[:pos], line[pos+1:]]
